@@ -280,3 +280,97 @@ theorem fsm_safety (n : Nat) (s : Sys) (h : Reachable n s) :
     rw [a4, b4, List.take_take, Nat.min_eq_left hij]; exact this
 
 end RP
+
+namespace RP
+
+/-- **The acknowledged index is exact (C08 / C03, model level).**  When a server's commit index has
+    reached `k` — the moment a leader resolves the `Apply` future of index `k` with a nil error —
+    the entry `e` it holds at `k` is the entry every state machine, on every server and in every
+    lifetime, past or future in this history, is handed at index `k`; and every state ever restored
+    at an index `≥ k` has `e` at position `k`. -/
+theorem ack_exact (n : Nat) (s : Sys) (h : Reachable n s) (i k : Nat) (e : Entry)
+    (hk1 : 1 ≤ k) (hk : k ≤ (s.nodes i).commit) (he : (s.nodes i).log[k - 1]? = some e) :
+    (∀ v e', (v, k, e') ∈ s.ghost.fsmApplied → e' = e) ∧
+    (∀ v j L, (v, j, L) ∈ s.ghost.fsmRestored → k ≤ j → L[k - 1]? = some e) := by
+  have i7 := inv7_reachable n s h
+  obtain ⟨t, kk, c1, c2, c3⟩ := reached_committed n s h i k (by omega) (by omega)
+  have he' : (s.ghost.tl t)[k - 1]? = some e := by
+    rw [← getElem?_of_take_eq _ _ k (k - 1) (by omega) c3]; exact he
+  refine ⟨?_, ?_⟩
+  · intro v e' hm
+    obtain ⟨t2, k2, b1, b2, b3, b4⟩ := i7.app_ok v k e' hm
+    have := committed_agree n s h t kk t2 k2 k c1 b1 c2 b3
+    have := getElem?_of_take_eq _ _ k (k - 1) (by omega) this
+    rw [he', b4] at this
+    exact (Option.some.inj this).symm
+  · intro v j L hm hkj
+    obtain ⟨t2, k2, b1, b2, b3, b4⟩ := i7.rst_ok v j L hm
+    have := committed_agree n s h t kk t2 k2 k c1 b1 c2 (by omega)
+    have := getElem?_of_take_eq _ _ k (k - 1) (by omega) this
+    rw [b4, List.getElem?_take_of_lt (by omega), ← this]; exact he'
+
+end RP
+
+namespace RP
+
+/-- `s'` is reachable from `s` -/
+inductive Steps (n : Nat) : Sys → Sys → Prop
+  | refl (s) : Steps n s s
+  | step {s s' s''} : Steps n s s' → Step n s' s'' → Steps n s s''
+
+theorem steps_reachable (n : Nat) (s s' : Sys) (h : Reachable n s) (hs : Steps n s s') : Reachable n s' := by
+  induction hs with
+  | refl => exact h
+  | step _ st ih => exact Reachable.step ih st
+
+/-- a committed pair, and the entries below it, stay for ever -/
+theorem committed_forever (n : Nat) (s s' : Sys) (h : Reachable n s) (hs : Steps n s s') (t k : Nat)
+    (hc : Committed n s t k) :
+    Committed n s' t k ∧ (s'.ghost.tl t).take k = (s.ghost.tl t).take k := by
+  induction hs with
+  | refl => exact ⟨hc, rfl⟩
+  | step hs' st ih =>
+    obtain ⟨c1, c2⟩ := ih
+    have hr := steps_reachable n _ _ h hs'
+    obtain ⟨m1, m2⟩ := step_mono n _ _ hr st
+    refine ⟨committed_mono n _ _ m1 m2 t k c1, ?_⟩
+    rw [(m1 t k c1.2.1).1]; exact c2
+
+/-- **Committed entries are permanent (C03) and the acknowledgement stays exact (C08).**  If at some
+    moment a server's commit index has reached `k` with entry `e` at `k`, then in *every later
+    state of every continuation* — crashes, elections, truncations, snapshots, restores — every
+    entry handed to any state machine at index `k` is `e`, every state restored at `j ≥ k` has `e`
+    at `k`, and every server whose commit index or snapshot reaches `k` holds `e` at `k`. -/
+theorem ack_exact_forever (n : Nat) (s s' : Sys) (h : Reachable n s) (hs : Steps n s s') (i k : Nat) (e : Entry)
+    (hk1 : 1 ≤ k) (hk : k ≤ (s.nodes i).commit) (he : (s.nodes i).log[k - 1]? = some e) :
+    (∀ v e', (v, k, e') ∈ s'.ghost.fsmApplied → e' = e) ∧
+    (∀ v j L, (v, j, L) ∈ s'.ghost.fsmRestored → k ≤ j → L[k - 1]? = some e) ∧
+    (∀ w, k ≤ max (s'.nodes w).commit (s'.nodes w).snapIdx → (s'.nodes w).log[k - 1]? = some e) := by
+  have h' := steps_reachable n s s' h hs
+  have i7 := inv7_reachable n s' h'
+  obtain ⟨t, kk, c1, c2, c3⟩ := reached_committed n s h i k (by omega) (by omega)
+  have he0 : (s.ghost.tl t)[k - 1]? = some e := by
+    rw [← getElem?_of_take_eq _ _ k (k - 1) (by omega) c3]; exact he
+  obtain ⟨c1', hpre⟩ := committed_forever n s s' h hs t kk c1
+  have he' : (s'.ghost.tl t)[k - 1]? = some e := by
+    rw [getElem?_of_take_eq _ _ kk (k - 1) (by omega) hpre]; exact he0
+  refine ⟨?_, ?_, ?_⟩
+  · intro v e' hm
+    obtain ⟨t2, k2, b1, b2, b3, b4⟩ := i7.app_ok v k e' hm
+    have := committed_agree n s' h' t kk t2 k2 k c1' b1 c2 b3
+    have := getElem?_of_take_eq _ _ k (k - 1) (by omega) this
+    rw [he', b4] at this
+    exact (Option.some.inj this).symm
+  · intro v j L hm hkj
+    obtain ⟨t2, k2, b1, b2, b3, b4⟩ := i7.rst_ok v j L hm
+    have := committed_agree n s' h' t kk t2 k2 k c1' b1 c2 (by omega)
+    have := getElem?_of_take_eq _ _ k (k - 1) (by omega) this
+    rw [b4, List.getElem?_take_of_lt (by omega), ← this]; exact he'
+  · intro w hw
+    obtain ⟨t2, k2, b1, b2, b3⟩ := reached_committed n s' h' w k (by omega) hw
+    have := committed_agree n s' h' t kk t2 k2 k c1' b1 c2 b2
+    have e1 := getElem?_of_take_eq _ _ k (k - 1) (by omega) this
+    have e2 := getElem?_of_take_eq _ _ k (k - 1) (by omega) b3
+    rw [e2, ← e1]; exact he'
+
+end RP
